@@ -1,8 +1,8 @@
 """C03 -- exactly the selected tests run, once each, and every mode agrees on them (structure)."""
 import ast
 
-from .common import (Ctx, call_name, calls_in, dotted, is_name, kw, local_assignments, node_calls,
-                     nodes_calling, norm, own_calls, params, hook_calls)
+from .common import (alias_dotted, Ctx, call_name, calls_in, dotted, is_name, kw, local_assignments, node_calls,
+                     nodes_calling, norm, own_calls, params, hook_calls, iterates_in_order, element_target)
 
 P = 'C03'
 STATE = 'tests_by_layer_name'
@@ -171,7 +171,8 @@ def r2_single_ordering_source(ctx, rep, R='C03.R2'):
                   'the remaining layers', key='queue:resume', func=fr.qualname, where=ctx.where(fr, fr.node))
     fl = m.func('listing.Listing.report')
     loops = [n for n in ast.walk(fl.node) if isinstance(n, ast.For)]
-    okl = len(loops) == 1 and norm(loops[0].iter) == 'self.runner.ordered_layers()' and \
+    okl = len(loops) == 1 and isinstance(loops[0].iter, ast.Call) and not loops[0].iter.args and \
+        alias_dotted(fl.node, loops[0].iter.func) == 'self.runner.ordered_layers' and \
         isinstance(loops[0].target, ast.Tuple) and len(loops[0].target.elts) == 3
     if okl:
         nm, _unused, tests = [e.id if isinstance(e, ast.Name) else None for e in loops[0].target.elts]
@@ -197,7 +198,7 @@ def r2_single_ordering_source(ctx, rep, R='C03.R2'):
               'registered under the layer name in order_by_bases order', key='ordered_layers:yield',
               func=fo.qualname, where=ctx.where(fo, fo.node))
     frt = m.func('runner.resume_tests')
-    lp = [n for n in ast.walk(frt.node) if isinstance(n, ast.For) and is_name(n.iter, 'layers')]
+    lp = [n for n in ast.walk(frt.node) if isinstance(n, ast.For) and iterates_in_order(n.iter, 'layers')]
     rep.check(len(lp) == 1, R, 'resume_tests iterates its layers in order',
               'resume_tests does not iterate the layer list directly', key='resume_tests:iter',
               func=frt.qualname, where=ctx.where(frt, frt.node))
@@ -210,7 +211,7 @@ def r3_listing_runs_nothing(ctx, rep, R='C03.R3'):
     m = ctx.model
     fg = m.func('listing.Listing.global_setup')
     clears = [n for n in ast.walk(fg.node) if isinstance(n, ast.Assign) and any(
-        dotted(t) == 'self.runner.do_run_tests' for t in n.targets) and
+        alias_dotted(fg.node, t) == 'self.runner.do_run_tests' for t in n.targets) and
         isinstance(n.value, ast.Constant) and n.value.value is False]
     rep.check(len(clears) == 1, R, 'Listing.global_setup: self.runner.do_run_tests = False',
               'the listing feature does not switch running off', key='listing:switch',
@@ -317,7 +318,7 @@ def r5_one_process_per_layer(ctx, rep, R='C03.R5'):
     gr = ctx.cfg(fr)
     threads = [c for c in own_calls(fr.node) if (m.resolve_dotted(fr.module, dotted(c.func)) or '')
                == 'threading.Thread' and dotted(kw(c, 'target')) == 'spawn_layer_in_subprocess']
-    lp = [n for n in gr.nodes if n.kind == 'for' and is_name(n.ast, 'layers')]
+    lp = [n for n in gr.nodes if n.kind == 'for' and iterates_in_order(n.ast, 'layers')]
     ok = len(threads) == 1 and len(lp) == 1
     ready = None
     if ok:
@@ -331,8 +332,8 @@ def r5_one_process_per_layer(ctx, rep, R='C03.R5'):
                 ready = dotted(c.func.value)
         # the layer of the thread is the loop's own layer
         a = kw(threads[0], 'args')
-        tv = [e.id for e in lp[0].stmt.target.elts if isinstance(e, ast.Name)] \
-            if isinstance(lp[0].stmt.target, ast.Tuple) else []
+        et = element_target(lp[0].stmt)
+        tv = [e.id for e in et.elts if isinstance(e, ast.Name)] if isinstance(et, ast.Tuple) else []
         ok = ok and ready is not None and isinstance(a, ast.Tuple) and \
             all(any(is_name(x, v) for x in a.elts) for v in tv[:2])
     rep.check(ok, R, 'resume_tests: one Thread(target=spawn_layer_in_subprocess) per queued layer',
